@@ -215,7 +215,8 @@ open Op in
     (`deepRule f A`: every composite node met has a structural rule and the recursion ends in leaf kinds only —
     no sliced / concatenated / `no_dispatch` node, see `C19_rule_cost_opaque_not_covered`), the entries allocated while `f(A)`
     is built are at most `CF · factorDense A + OW · linSize A`:
-    `CF = 7` dense copies of each FACTOR (Σ rᵢ·cᵢ over the factors — the generic rule runs on factors
+    `CF = 7` dense copies of each Dense / Triangular FACTOR (Σ rᵢ·cᵢ; a structured leaf — Diagonal, Identity, ScalarMul,
+    Permutation — counts with its storage and must have a structural rule of `f`, round 3 — the generic rule runs on factors
     only) plus `OW = 3` vectors of the LINEAR size per member of every node.  No product of the row and
     column count of a composite node occurs. -/
 theorem C19_rule_cost {R : Type} (f : Fn) (A : Op R) (h : deepRule f A = true) :
@@ -248,6 +249,20 @@ theorem C19_rule_cost_opaque_not_covered :
       deepRule Fn.inv (kron [kron [D, D], D]) = true ∧ factorDense (kron [kron [D, D], D]) = 48 := by
   simp [Op.deepRule, Op.ruleCost, Op.act, Op.genCost, Op.ownCost, Op.ownW, Op.arity, Op.cf, Op.rows, Op.cols,
     Op.factorDense, Op.vol]
+
+open Op in
+/-- round 3 — structured leaves count with their STORAGE: the full-size Diagonal and Identity members of
+    `Kronecker(D₄, D₄) + Diagonal₁₆ + I₁₆` contribute `16 + 1` to `factorDense` (it was `2 · 256`), and the tree is
+    covered for `diag`.  A leaf for which `f` has NO structural rule is densified by the generic rule
+    (`genCost = cf · n²`) and is therefore not covered: Tridiagonal (no rule in any family), Permutation under
+    `diag` — while `inv(Kronecker(P, D))` is (inv.py has a Permutation rule). -/
+theorem C19_rule_cost_structured_leaves :
+    let D : Op Int := dense .f64 4 4 (fun _ _ => 1)
+    let A : Op Int := sum [kron [D, D], diag .f64 16 (fun _ => 1), eye .f64 16]
+    deepRule Fn.diag A = true ∧ factorDense A = 32 + 16 + 1 ∧
+      deepRule Fn.inv (kron [tridiag .f64 4 (fun _ => 0) (fun _ => 1) (fun _ => 0), D]) = false ∧
+      deepRule Fn.diag (kron [perm .f64 [1, 0], D]) = false ∧ deepRule Fn.inv (kron [perm .f64 [1, 0], D]) = true := by
+  simp [Op.deepRule, Op.act, Op.factorDense, Op.rows, Op.cols]
 
 open Op in
 /-- on a covered tree the bound really is far below the dense size: Kronecker(D₄₀, D₄₀), n = 1600 -/
@@ -326,5 +341,6 @@ open ColaVerif.Structural in
 #print axioms ColaVerif.Properties.C19.C19_rule_cost
 #print axioms ColaVerif.Properties.C19.C19_rule_cost_clause_needed
 #print axioms ColaVerif.Properties.C19.C19_rule_cost_opaque_not_covered
+#print axioms ColaVerif.Properties.C19.C19_rule_cost_structured_leaves
 #print axioms ColaVerif.Properties.C19.C19_skeleton_shapes
 #print axioms ColaVerif.Properties.C19.C19_skeleton_derived
